@@ -25,7 +25,6 @@ package c06
 
 import (
 	"fmt"
-	"os"
 	"runtime"
 	"sort"
 	"sync"
@@ -44,7 +43,7 @@ import (
 
 func cases(tier string) int {
 	if tier == "thorough" {
-		return 50000
+		return 40000
 	}
 	return 1200
 }
@@ -531,20 +530,7 @@ type step struct {
 }
 
 func run(c *vf.Case) {
-	tStart := time.Now()
-	defer func() {
-		if os.Getenv("C06_TIMING") != "" {
-			fmt.Fprintf(os.Stderr, "TIMING case=%d ms=%d\n", c.Idx, time.Since(tStart).Milliseconds())
-		}
-	}()
 	s := buildScenario(c.R, c.Tier)
-	if os.Getenv("C06_TIMING") != "" {
-		n := 0
-		for _, st := range s.streams {
-			n += len(st.arr)
-		}
-		fmt.Fprintf(os.Stderr, "TIMING case=%d kind=%s pkts=%d ticks=%d\n", c.Idx, kindNames[s.kind], n, s.end/s.ivNs)
-	}
 	c.Add("cases_"+kindNames[s.kind], 1)
 
 	// merged timeline (stable: ties keep per-stream order; rtcp after rtp at equal instants
@@ -714,4 +700,3 @@ func trunc(s string, n int) string {
 	}
 	return s
 }
-
